@@ -1,6 +1,7 @@
 //! Verification harnesses for crustabri (see /verif/DESIGN.md).
 #![allow(dead_code)]
 pub mod dynamics;
+pub mod h_writers;
 pub mod nd;
 pub mod oracle;
 pub mod spec;
@@ -8,6 +9,7 @@ pub mod statics;
 pub mod store;
 pub mod util;
 pub mod h_dynamic;
+pub mod h_indep;
 pub mod h_layout;
 pub mod h_problem;
 pub mod h_static;
